@@ -173,6 +173,13 @@ func i6Taint(fn *ssa.Function) map[ssa.Value]string {
 	// fields of rangeValue
 	eachInstr(fn, func(in ssa.Instruction) {
 		switch x := in.(type) {
+		case *ssa.Call:
+			// the seconds or nanoseconds since the epoch of an instant the script built: any 64-bit value
+			if cal := x.Call.StaticCallee(); cal != nil && fnPkgPath(cal) == "time" && cal.Signature.Recv() != nil && strings.HasPrefix(cal.Name(), "Unix") {
+				if _, tn := namedOf(cal.Signature.Recv().Type()); tn == "Time" {
+					t[x] = "time.Time." + cal.Name() + "() of an instant built by the script"
+				}
+			}
 		case *ssa.Field:
 			if _, n := namedOf(x.X.Type()); strings.HasPrefix(n, "range") {
 				t[x] = "rangeValue." + x.X.Type().Underlying().(*types.Struct).Field(x.Field).Name()
@@ -271,9 +278,8 @@ func boundedBothSides(b *ssa.BasicBlock, v ssa.Value) bool {
 		}
 		return false
 	}
-	for _, pc := range pathConds(b) {
-		cond, neg := stripNot(pc.If.Cond)
-		taken := pc.Branch != neg
+	for _, pf := range pathFacts(b) {
+		cond, taken := pf.Cond, pf.Truth
 		bo, ok := cond.(*ssa.BinOp)
 		if !ok {
 			continue
@@ -348,9 +354,8 @@ func nonNegative(b *ssa.BasicBlock, v ssa.Value) bool {
 	case *ssa.Convert:
 		return nonNegative(b, x.X)
 	}
-	for _, pc := range pathConds(b) {
-		cond, neg := stripNot(pc.If.Cond)
-		taken := pc.Branch != neg
+	for _, pf := range pathFacts(b) {
+		cond, taken := pf.Cond, pf.Truth
 		bo, ok := cond.(*ssa.BinOp)
 		if !ok {
 			continue
@@ -369,9 +374,8 @@ func nonNegative(b *ssa.BasicBlock, v ssa.Value) bool {
 
 // negative: v < 0 is known at block b.
 func knownNegative(b *ssa.BasicBlock, v ssa.Value) bool {
-	for _, pc := range pathConds(b) {
-		cond, neg := stripNot(pc.If.Cond)
-		taken := pc.Branch != neg
+	for _, pf := range pathFacts(b) {
+		cond, taken := pf.Cond, pf.Truth
 		bo, ok := cond.(*ssa.BinOp)
 		if !ok {
 			continue
@@ -397,9 +401,8 @@ func sameLoad(a, b ssa.Value) bool {
 // upperBoundedByLen: t < L (or t <= L) holds at block b with L derived from len/Len.
 func upperBoundedByLen(b *ssa.BasicBlock, t ssa.Value) bool {
 	roots := backSlice(t)
-	for _, pc := range pathConds(b) {
-		cond, neg := stripNot(pc.If.Cond)
-		taken := pc.Branch != neg
+	for _, pf := range pathFacts(b) {
+		cond, taken := pf.Cond, pf.Truth
 		bo, ok := cond.(*ssa.BinOp)
 		if !ok {
 			continue
@@ -569,13 +572,13 @@ func reachesNumberSink(v ssa.Value, seen map[ssa.Value]bool, depth int) bool {
 
 // upperBounded: a dominating comparison bounds the (unsigned) value from above by a constant.
 func upperBounded(b *ssa.BasicBlock, v ssa.Value) bool {
-	for _, pc := range pathConds(b) {
-		cond, neg := stripNot(pc.If.Cond)
+	for _, pf := range pathFacts(b) {
+		cond, neg := pf.Cond, false
 		bo, ok := cond.(*ssa.BinOp)
 		if !ok {
 			continue
 		}
-		taken := pc.Branch != neg
+		taken := pf.Truth != neg
 		op := bo.Op
 		var k ssa.Value
 		if bo.X == v || sameLoad(bo.X, v) {
@@ -598,7 +601,6 @@ func upperBounded(b *ssa.BasicBlock, v ssa.Value) bool {
 	}
 	return false
 }
-
 
 // sameFieldLoad2: two loads of the same field of the same object (each `x.f` is a FieldAddr of its own).
 func sameFieldLoad2(a, b ssa.Value) bool {
